@@ -3,7 +3,8 @@ bookkeeping state canonically, render ops as literals of Model/Func.v, and evalu
 (I1..I6) on the dumped implementation state with exact Fractions.
 
 Op (JSON-able nested lists / tuples):
-  ["NewPoint"] ["NewExpr"] ["NewLeaf", reuse] ["Combine", [[fid, q], ...]] ["Direct", [[leaf fid, q], ...], reuse]
+  ["NewPoint"] ["NewExpr"] ["NewLeaf", reuse] (bare Function) | ["NewLeaf", declared, "ClassName"] (an instance of a
+  shipped class built with reuse_gradient=declared) ["Combine", [[fid, q], ...]] ["Direct", [[leaf fid, q], ...], reuse]
   ["Oracle", fid, ptree] ["Gradient", fid, ptree] ["Value", fid, ptree] ["Stationary", fid] ["Fixed", fid]
   ["AddPoint", fid, xtree, gtree, [[eid, q], ...]]
 ptree = a point tree of harness/terms.py over PVar k = the leaf point whose Point.counter is k; it is
@@ -13,7 +14,7 @@ import random
 from fractions import Fraction
 
 from . import terms as T
-from .common import coq_q, coq_nat, coq_list, to_fraction, Q
+from .common import coq_q, coq_nat, coq_list, coq_str, to_fraction, Q
 
 
 def detuple(x):
@@ -38,6 +39,17 @@ def is_pow2(fr):
         return False
     n, d = fr.numerator, fr.denominator
     return (n & (n - 1)) == 0 and (d & (d - 1)) == 0 and (n == 1 or d == 1)
+
+
+# documented rule for reuse_gradient of the 24 shipped classes (twin of Model/Func.v forced_classes): these FORCE True,
+# every other class forwards the declared value
+FORCED_CLASSES = {"BlockSmoothConvexFunction", "SmoothConvexFunction", "SmoothConvexLipschitzFunction", "SmoothFunction",
+                  "SmoothStronglyConvexFunction", "SmoothStronglyConvexQuadraticFunction", "CocoerciveOperator",
+                  "CocoerciveStronglyMonotoneOperator", "LinearOperator", "LipschitzOperator",
+                  "LipschitzStronglyMonotoneOperator", "NonexpansiveOperator", "SkewSymmetricLinearOperator",
+                  "SymmetricLinearOperator"}
+LEAF_CLASS_PARAMS = {"ConvexIndicatorFunction": {}, "ConvexFunction": {}, "SmoothStronglyConvexFunction": {"mu": 0.5, "L": 2},
+                     "LipschitzOperator": {"L": 1}, "StronglyConvexFunction": {"mu": 1}, "MonotoneOperator": {}}
 
 
 class Inexact(Exception):
@@ -304,6 +316,17 @@ class World(object):
         if k == "NewExpr":
             e = Expression()
             return "NewExpr", [self.dump_e(e)]
+        if k == "NewLeaf" and len(op) > 2:
+            from .classes import get_class
+            cls = op[2]
+            f = get_class(cls)(reuse_gradient=bool(op[1]), **LEAF_CLASS_PARAMS[cls])
+            self._register(f)
+            want = (cls in FORCED_CLASSES) or bool(op[1])
+            if f.reuse_gradient != want and self.point_problem is None:
+                self.point_problem = dict(clause="C0", cls=cls, declared=bool(op[1]), effective=bool(f.reuse_gradient),
+                                          expected=want, why="effective reuse_gradient of a class instance is not "
+                                          "(class forces True) or (declared value)")
+            return "(NewLeaf (leaf_reuse %s %s))" % (coq_str(cls), "true" if op[1] else "false"), []
         if k == "NewLeaf":
             f = Function(is_leaf=True, reuse_gradient=bool(op[1]))
             self._register(f)
